@@ -82,9 +82,6 @@ class CompoundGammaDirichletPrior(CallableModel):
             key=len,
         )
 
-    def handle_parameter_changed(self, variable, index, event) -> None:
-        pass
-
     @classmethod
     def from_json(
         cls, data: dict[str, Any], dic: dict[str, Identifiable]
